@@ -502,7 +502,8 @@ class World:
             if k == "dm":
                 fs = [f for f in before["files"] if f["pk"] == op[2]]
             else:
-                fs = [f for f in before["files"] if f["name"] == op[2]]
+                # an upload replaces the file of that name in ITS OWN stream only
+                fs = [f for f in before["files"] if f["name"] == op[2] and f["stream"] == op[1]]
             own_files(fs)
             for f in fs:
                 affected.add(f["stream"])
